@@ -23,9 +23,9 @@ RULE = ("ALL (m, k) pairs with m <= 12 rows and k in {None, 1..m+2} (114 pairs, 
         "autograd.Function whose backward calls .item()); non-trivial = m >= 2 and 1 < k < m (several batched sweeps); distinct = "
         "(entry, m, k, retain, program) sha1")
 EXHAUSTIVE_NOTE = {"quick": "the (m,k) grid m<=12, k in {None,1..m+2} is enumerated completely (3 programs per pair and entry point)",
-                   "thorough": "the (m,k) grid m<=12, k in {None,1..m+2} is enumerated completely (80 programs per pair and entry point)"}
+                   "thorough": "the (m,k) grid m<=12, k in {None,1..m+2} is enumerated completely (400 programs per pair and entry point)"}
 ASSUMPTIONS = ["a tensor hook fires once per backward sweep that reaches the tensor (torch semantics)"]
-PER_PAIR = {"quick": 3, "thorough": 80}
+PER_PAIR = {"quick": 3, "thorough": 400}
 F = torch._C._functorch
 
 
@@ -44,12 +44,12 @@ def shards(tier, seed):
     for entry in ("backward", "mtl"):
         for i in range(n):
             out.append({"kind": "grid", "entry": entry, "pairs": g[i::n], "per_pair": PER_PAIR[tier]})
-    out += split_shards("hostile", 160 if tier == "quick" else 3000, 2 if tier == "quick" else 8)
+    out += split_shards("hostile", 160 if tier == "quick" else 12000, 2 if tier == "quick" else 8)
     # more rows than any plausible internal cap (64, 128, 256 ...): the default None must still mean ONE sweep
     big = [(m, k) for m in (65, 100, 129, 257) for k in (None, 1, 2, 63, 64, 65, m - 1, m, m + 2)]
     nb = 4 if tier == "quick" else 8
     for i in range(nb):
-        out.append({"kind": "large", "pairs": big[i::nb], "per_pair": 1 if tier == "quick" else 6})
+        out.append({"kind": "large", "pairs": big[i::nb], "per_pair": 1 if tier == "quick" else 30})
     return out
 
 
